@@ -614,6 +614,12 @@ func (e *Encoder) memKeysWritten(blocks map[*ssa.BasicBlock]bool) (keys map[stri
 					if e.prog.stdlibPure(callee) {
 						continue
 					}
+					if ts, ok := stdlibWrites(callee); ok {
+						for _, t := range ts {
+							addShaped(t, 2)
+						}
+						continue
+					}
 					if fc := e.prog.contractFor(callee); fc != nil && fc.HasMod {
 						ok := true
 						for _, t := range e.prog.modTypes(callee, fc) {
